@@ -84,11 +84,14 @@ def run(ck):
                 rng.shuffle(pairs)
                 ops.append("m" + "+".join(pairs))
             else:
-                pairs = ["%d:%d" % (rng.randrange(1, 5), rng.randrange(1, 5)) for _ in range(rng.randrange(0, 4))]
+                hi = rng.choice([5, 5, 12, 40])
+                pairs = ["%d:%d" % (rng.randrange(0, hi), rng.randrange(0, hi)) for _ in range(rng.randrange(0, 4))]
                 # no duplicate pairs inside one set (the assembler's @meta may repeat keys, pairs stay a multiset)
                 ops.append("m" + "+".join(pairs))
         mcases.append("intern\tmeta\t" + ",".join(ops))
 
+    for a, b in ((0, 7), (0, 1), (9, 0)):
+        mcases.append("intern\tmeta\tm1:%d+1:%d,m1:%d+1:%d,m%d:1+%d:1,m%d:1+%d:1" % (a, b, b, a, a, b, b, a))
     allc = cases + big + mcases
     impl = run_cases(harness, allc, timeout=900)
     mod = run_cases(model, cases + mcases, timeout=900)
@@ -132,4 +135,49 @@ def run(ck):
             else:
                 ck.violation("correspondence of buffer layout: impl %s model %s" % (r[:200], mod_by[c][:200]),
                              {"correspondence": "Interner.intern vs BytesInterner::intern (layout)", "harness_case": c[:100000]}, no_input=True)
+    # ---- the interner of absolute paths (directory + possibly relative path): two requests get the same handle exactly
+    # when they name the same absolute path (`.` and `..` resolved lexically), a handle keeps naming that path whatever
+    # is interned afterwards, from whichever directory
+    def lexnorm(cwd, path):
+        full = path if path.startswith(b"/") else cwd + b"/" + path
+        out = []
+        for part in full.split(b"/"):
+            if part in (b"", b"."):
+                continue
+            if part == b"..":
+                if out:
+                    out.pop()
+                continue
+            out.append(part)
+        return b"/" + b"/".join(out)
+    ADIRS = [b"/w", b"/w/a", b"/w/b", b"/w/a/sub", b"/", b"/w/lib"]
+    APATHS = [b"x.asm", b"./x.asm", b"sub/y.inc", b"../b/x.asm", b".", b"..", b"a/x.asm", b"y.asm", b"../x.asm", b"x\xff.asm",
+              b"/w/a/x.asm", b"/w/b/x.asm", b"/w/a/../b/x.asm", b"/z", b"/w/lib/x.asm", b"/w/lib/y.asm", b"/w/./a/./x.asm"]
+    acases, awant = [], []
+    import itertools as _it
+    hist = []
+    # every three-step history over a small core (relative in A, absolute seen from B, the same relative in B, ...)
+    core_d, core_p = ADIRS[:3] + [b"/w/lib"], [b"x.asm", b"y.asm", b".", b"/w/lib/x.asm", b"/w/a/x.asm", b"../b/x.asm"]
+    steps = [(d, p) for d in core_d for p in core_p]
+    for h in _it.product(range(len(steps)), repeat=3):
+        if thorough or rng.random() < 0.12:
+            hist.append([steps[i] for i in h])
+    for _ in range(2000 if thorough else 400):
+        hist.append([(rng.choice(ADIRS), rng.choice(APATHS)) for _ in range(rng.randrange(2, 12))])
+    for h in hist:
+        acases.append("intern\tabspath\t" + ",".join("a%s:%s" % (d.hex(), p.hex()) for d, p in h))
+        awant.append([lexnorm(d, p) for d, p in h])
+    aimpl = run_cases(harness, acases)
+    ck.evaluations += len(acases)
+    for c, r, want in zip(acases, aimpl, awant):
+        ck.nontriv(c)
+        ck.count("abspath:" + r.split(" ")[0])
+        ids = [want.index(w) for w in want]
+        exp = "ABS " + ",".join("%d=%s" % (i, w.hex()) for i, w in zip(ids, want)) + " LATER " + ",".join(w.hex() for w in want) + " EQBAD 0"
+        if r != exp:
+            ck.violation("absolute-path interner: history %s gives %s, expected %s" % (
+                [(d.decode("latin1"), p.decode("latin1")) for d, p in zip([bytes.fromhex(x[1:].split(":")[0]) for x in c.split("\t")[2].split(",")],
+                                                                        [bytes.fromhex(x.split(":")[1]) for x in c.split("\t")[2].split(",")])][:12], r[:200], exp[:200]),
+                {"mode": "intern", "harness_case": c, "expected": exp})
+            break
     return ck
